@@ -1,9 +1,11 @@
 import PonyVerif.Drive.Util
+import PonyVerif.Drive.C09
 import PonyVerif.Model.SetCount
 /-
   Line-protocol entry for the SetData bookkeeping model (C10, `count ± added ∓ removed`).
   request : {"op":"run","cfg":{"m2m":b,"owning":b,"fixRemove":b,"fixFlush":b},"db":[ids],
              "ops":[{"k":"seen"|"revAdd"|"revRemove"|"add"|"remove","x":id} | {"k":"loadAll"|"count"|"flush"}]}
+            a request with "model":"session" is the request of Drive/C09 (the session model shared with C09) and is forwarded
   reply   : {"steps":[{"err":null|"assertion"|"phantom","ret":int|null,"valid":b,"safe":b,
                        "sd":{"items":[..],"fully":b,"count":int|null,"added":[..],"removed":[..]},"db":[..],"spec":[..]}]}
             after an error the state stays and the remaining steps repeat it
@@ -29,6 +31,7 @@ def jSd (sd : SetData) : Json := Json.mkObj [
   ("added", toJson sd.added), ("removed", toJson sd.removed)]
 
 def handle (j : Json) : Except String Json := do
+  if (j.getObjValAs? String "model").toOption == some "session" then PonyVerif.Drive.C09.handle j else
   let op ← argStr j "op"
   match op with
   | "run" =>
